@@ -384,6 +384,20 @@ class CallMixin:
                     st.assume(z3.Implies(distinct, self.elems(newseq).t == z3.Store(self.elems(base).t, z3.Select(arr, n - 1), False)))
                     st.assume(z3.IsSubset(self.elems(newseq).t, self.elems(base).t))
                 return SV(z3.Select(arr, n - 1), ty.elem)
+            if meth == "insert":
+                pos = z3.simplify(self.to_int(self.ev(node.args[0], st), st, node))
+                if not (z3.is_int_value(pos) and pos.as_long() == 0):
+                    raise Unsupported("list.insert at a position other than 0")
+                v = self.ev(node.args[1], st, ty.elem)
+                r = fresh(ty, "ins")
+                ra = ty.arr(r.t)
+                j = z3.Int(fresh_name("j"))
+                st.assume(ty.len(r.t) == n + 1)
+                st.assume(z3.Select(ra, 0) == v.t)
+                st.assume(z3.ForAll([j], z3.Implies(z3.And(1 <= j, j <= n), z3.Select(ra, j) == z3.Select(arr, j - 1)), patterns=[z3.Select(ra, j)]))
+                st.assume(z3.ForAll([j], z3.Implies(z3.And(0 <= j, j < n), z3.Select(ra, j + 1) == z3.Select(arr, j)), patterns=[z3.Select(arr, j)]))
+                writeback(r)
+                return SV(T.NoneT.value(), T.NoneT)
             if meth == "reverse":
                 i = z3.Int("i!rv")
                 writeback(SV(ty.mk(z3.Lambda([i], z3.Select(arr, n - 1 - i)), n), ty))
